@@ -40,6 +40,7 @@ use easy_ml::tensors::Tensor;
 type R<'a> = Record<'a, f64>;
 type RT<'a> = RecordTensor<'a, f64, Tensor<(f64, usize), 2>, 2>;
 type RM<'a> = RecordMatrix<'a, f64, Matrix<(f64, usize)>>;
+type RT0<'a> = RecordTensor<'a, f64, Tensor<(f64, usize), 0>, 0>;
 type Tape = WengertList<f64>;
 fn mk_r<'a>(list: &'a Tape) -> R<'a> {
     Record::variable(2.0, list)
@@ -47,12 +48,15 @@ fn mk_r<'a>(list: &'a Tape) -> R<'a> {
 fn mk_rt<'a>(list: &'a Tape) -> RT<'a> {
     RecordTensor::variables(list, Tensor::from([("r", 2), ("c", 2)], vec![1.0, 2.0, 3.0, 4.0]))
 }
+fn mk_rt0<'a>(list: &'a Tape) -> RT0<'a> {
+    RecordTensor::variables(list, Tensor::from([], vec![3.0]))
+}
 fn mk_rm<'a>(list: &'a Tape) -> RM<'a> {
     RecordMatrix::variables(list, Matrix::from(vec![vec![1.0, 2.0], vec![3.0, 4.0]]))
 }
 """
 
-KIND = {"R": ("R<'a>", "mk_r"), "RT": ("RT<'a>", "mk_rt"), "RM": ("RM<'a>", "mk_rm")}
+KIND = {"R": ("R<'a>", "mk_r"), "RT": ("RT<'a>", "mk_rt"), "RM": ("RM<'a>", "mk_rm"), "RT0": ("RT0<'a>", "mk_rt0")}
 RECV = {"s": ("&{C}", "&owner"), "m": ("&mut {C}", "&mut owner"), "o": ("{C}", "owner")}
 
 ENTRIES = []
@@ -207,6 +211,31 @@ entry("AsRecords::from_matrix_row_major", "RM", "AsRecords::from_matrix_row_majo
 entry("AsRecords::from_matrix_column_major", "RM", "AsRecords::from_matrix_column_major(&*c).collect()", "Vec<R<'a>>",
       call_o="AsRecords::from_matrix_column_major(&c).collect()", covers=[(I, "from_matrix_column_major")])
 
+
+# ---- conversions (`From` / `Into`) between records and 0-dimensional record tensors, iterators ----
+# keys of `covers` for impls: (file, "impl From<SRC> for DST") with whitespace removed
+def impl_key(src, dst):
+    return re.sub(r"\s+", "", f"From<{src}> for {dst}")
+
+
+F_T0_R = (M, impl_key("RecordTensor<'a, T, S, 0>", "Record<'a, T>"))
+F_RT0_R = (M, impl_key("&RecordTensor<'a, T, S, 0>", "Record<'a, T>"))
+F_R_T0 = (M, impl_key("Record<'a, T>", "RecordTensor<'a, T, Tensor<(T, Index), 0>, 0>"))
+F_RR_T0 = (M, impl_key("&Record<'a, T>", "RecordTensor<'a, T, Tensor<(T, Index), 0>, 0>"))
+F_AS_WI = (I, impl_key("AsRecords<'a, I, T>", "WithIndex<AsRecords<'a, WithIndex<I>, T>>"))
+entry("Record::from(RecordTensor<0>)", "RT0", "Record::from(c)", "R<'a>", recv="o", covers=[F_T0_R])
+entry("RecordTensor<0>.into() -> Record", "RT0", "c.into()", "R<'a>", recv="o", covers=[F_T0_R])
+entry("Record::from(&RecordTensor<0>)", "RT0", "Record::from(&*c)", "R<'a>", call_o="Record::from(&c)", covers=[F_RT0_R],
+      doc="`A zero dimensional record tensor can be converted losslessly into a record`: a copy, tied to the tape only")
+entry("(&RecordTensor<0>).into() -> Record", "RT0", "(&*c).into()", "R<'a>", call_o="(&c).into()", covers=[F_RT0_R])
+entry("RecordTensor<0>::from(Record)", "R", "RecordTensor::from(c.clone())", "RT0<'a>", covers=[F_R_T0])
+entry("Record.into() -> RecordTensor<0>", "R", "c.clone().into()", "RT0<'a>", covers=[F_R_T0])
+entry("RecordTensor<0>::from(&Record)", "R", "RecordTensor::from(&*c)", "RT0<'a>", call_o="RecordTensor::from(&c)", covers=[F_RR_T0])
+entry("(&Record).into() -> RecordTensor<0>", "R", "(&*c).into()", "RT0<'a>", call_o="(&c).into()", covers=[F_RR_T0])
+entry("WithIndex::from(AsRecords)", "RT",
+      "{ let w: easy_ml::matrices::iterators::WithIndex<_> = c.iter_as_records().into(); w.map(|(_, r)| r).collect() }",
+      "Vec<R<'a>>", covers=[F_AS_WI])
+
 # entry points that hand out a *borrow of the container* by design (a view / an accessor over
 # `&self`): their result may not escape the borrow; listed so that the coverage scan knows them
 BORROWING = [(M, "view"), (M, "index"), (M, "index_by")]
@@ -239,6 +268,13 @@ ROUND_TRIPS = [
     ("roundtrip RecordTensor: record from an exclusive access, then mutate", "RT",
      "fn probe<'a>(x: &mut RT<'a>) -> R<'a> {\n    let picked = {\n        let access = TensorAccess::from(&mut *x, [\"c\", \"r\"]);\n"
      "        access.try_get_as_record([1, 0]).unwrap()\n    };\n    x.unary_assign(|v| v * 2.0, |_| 2.0);\n    picked * picked\n}"),
+    ("roundtrip RecordTensor<0>: the converted record outlives the dropped container", "RT0",
+     "fn probe<'a>(list: &'a Tape) -> (R<'a>, R<'a>) {\n    let x = mk_rt0(list);\n    let a = Record::from(&x);\n"
+     "    let b: R<'a> = (&x).into();\n    drop(x);\n    (a, b)\n}"),
+    ("roundtrip RecordTensor<0>: convert, then mutate the container while the record is used", "RT0",
+     "fn probe<'a>(x: &mut RT0<'a>) -> R<'a> {\n    let r = Record::from(&*x);\n    x.unary_assign(|v| v * 2.0, |_| 2.0);\n    r * r\n}"),
+    ("roundtrip Record -> RecordTensor<0> -> Record", "R",
+     "fn probe<'a>(x: &R<'a>) -> R<'a> {\n    let t: RT0<'a> = x.into();\n    let back = Record::from(&t);\n    drop(t);\n    back\n}"),
     ("roundtrip Record: unary result outlives the operand binding", "R",
      "fn probe<'a>(list: &'a Tape) -> R<'a> {\n    let x = Record::variable(0.5, list);\n    x.unary(|v| v.tanh(), |v| 1.0 / (v.cosh() * v.cosh()))\n}"),
 ]
@@ -329,11 +365,44 @@ def scan_entry_points(repo):
     return found
 
 
+IMPL_CARRIES = re.compile(r"Record|AsRecords|WengertList")
+
+
+def scan_conversion_impls(repo):
+    """(file, normalised header) of every `impl … From/Into/TryFrom<…> for …` under src/differentiation/** and
+    src/tensors/indexing.rs whose source or target type carries a tape lifetime"""
+    found = set()
+    files = [X]
+    for base, _dirs, names in os.walk(os.path.join(repo, "src", "differentiation")):
+        for n in names:
+            if n.endswith(".rs"):
+                files.append(os.path.relpath(os.path.join(base, n), repo))
+    files.append(D)
+    for rel in sorted(set(files)):
+        path = os.path.join(repo, rel)
+        if not os.path.exists(path):
+            continue
+        t = gen_structs.strip_comments_and_strings(open(path).read())
+        for m in re.finditer(r"\bimpl\s*(<[^{;]*?>)?\s*(?:std::convert::)?(From|Into|TryFrom)\s*<", t):
+            i = m.end() - 1
+            e = gen_structs.match_angle(t, i)
+            src = t[i + 1:e]
+            rest = t[e + 1:]
+            fm = re.match(r"\s*for\s+([^{]*?)\s*(where\b|\{)", rest, flags=re.S)
+            if not fm:
+                continue
+            dst = fm.group(1)
+            if not (IMPL_CARRIES.search(src) or IMPL_CARRIES.search(dst)):
+                continue
+            found.add((rel, re.sub(r"\s+", "", f"{m.group(2)}<{src}> for {dst}")))
+    return found
+
+
 def coverage(repo):
     covered = set(BORROWING)
     for e in ENTRIES:
         covered |= set(e["covers"])
-    found = scan_entry_points(repo)
+    found = scan_entry_points(repo) | scan_conversion_impls(repo)
     return sorted(found - covered), len(found)
 
 
